@@ -5,6 +5,7 @@
  .4 K5  no search output after bestmove
  .5 K2  readyok / quit / EOF
  .6 K8  options are applied only by the idle engine thread
+ .7 K13 the per-go limits are recomputed completely on every path (no value of a previous go survives)
 """
 from ..core import cname, ap, walk, show, strip_not, eff_cond
 from ..flow import Flow
@@ -41,6 +42,7 @@ def run(fb, rep, tier):
     c4_no_output_after(fb, rep, cg)
     c5_readyok_quit(fb, rep, cg)
     c6_options(fb, rep, cg)
+    c7_go_frame(fb, rep)
     rep.extra['call_graph'] = {'functions': len(cg.edges), 'thread_roots': [fb.kname(k) + ' <- ' + fb.kname(c) for k, c, _ in cg.thread_roots if R.in_engine(fb.funcs.get(c)) ] if True else []}
     rep.extra['constant_stub_branches_folded'] = sorted({'%s -> %s' % (n, v) for _, _, n, v in fb.folded})
 
@@ -452,3 +454,40 @@ def c6_options(fb, rep, cg):
     if rep.need(clause, so, 'EngineControl::setOption'):
         R.must_pass_between(rep, so, clause, 'EngineControl::setOption enqueues via setOptionWhenIdle', None, R.at_exit,
                             R.is_named_call('EngineMainThread::setOptionWhenIdle'))
+
+
+# ----------------------------------------------------------------------------- .7
+
+def c7_go_frame(fb, rep):
+    """Per-`go` frame completeness: the function that derives the search limits from the go
+    parameters writes each limit field on *every* path (else a value from an earlier go leaks
+    into e.g. the `infinite` decision and an infinite search answers by itself)."""
+    from ..effects import Effects
+    clause = 'C05.7'
+    ct = fb.find1('EngineControl::computeTimeLimit')
+    if not rep.need(clause, ct, 'EngineControl::computeTimeLimit'):
+        return
+    eff = Effects(fb, 'EngineControl')
+    may = sorted(f for f in eff.may_write(ct) if not f.endswith('[]'))
+    rep.floor(clause, 'limit fields written by computeTimeLimit', len(may), 5)
+    for fld in may:
+        ok = eff.must_write(ct, fld)
+        rep.ob(clause, 'K13 frame completeness', 'computeTimeLimit writes %s on every path' % fld, ok, ct.where,
+               '' if ok else 'some path through computeTimeLimit leaves %s at the value of the previous go' % fld, ct.sname)
+    # the limits read when a search is started are all recomputed by the preceding computeTimeLimit call
+    for name in ('EngineControl::startSearch', 'EngineControl::startPonder'):
+        f = fb.find1(name)
+        if not rep.need(clause, f, name):
+            continue
+        reads = set()
+        for b, i, e in f.events():
+            if e.get('k') == 'acc' and e.get('a') in ('r', 'arg') and isinstance(e.get('e'), dict) and e['e'].get('k') == 'mem' and \
+                    ap(e['e']) and ap(e['e']).startswith('this.'):
+                fld = ap(e['e'])[5:]
+                if fld in ('minTimeLimit', 'maxTimeLimit', 'earlyStopPercentage', 'maxDepth', 'maxNodes'):
+                    reads.add(fld)
+        for fld in sorted(reads):
+            rep.ob(clause, 'K13 frame completeness', '%s: %s is recomputed by computeTimeLimit' % (name.split('::')[-1], fld),
+                   fld in may and eff.must_write(ct, fld), f.where, '', f.sname)
+        R.dominated_by(rep, f, clause, '%s: computeTimeLimit() precedes startThread()' % name,
+                       R.is_named_call('EngineControl::startThread'), R.is_named_call('EngineControl::computeTimeLimit'))
